@@ -50,6 +50,9 @@ CHECKS = {
  "C17": ("exploration", "lock-step pair of arenas in identical states: same request through two different entry points, compared on (chunk index, offset in chunk, length, value bytes) and (allocated, count, size, remaining)",
          "25 request kinds (typed value/slice/str/fmt/cstr/iter/uninit allocations, the *_mut helpers, reserve, the raw Allocator interface, the BumpAllocatorTyped layout methods) x up to 16 entry points each (inherent forwarders on Bump and BumpScope, the trait implementations reached through BumpScope, &Bump, &BumpScope, &mut, WithoutDealloc, WithoutShrink and the four dyn types; panicking and try_), over 6 settings/base-allocator configurations; entry points whose wrapper changes the meaning of an operation are excluded for that operation only.",
          "DESIGN.md 2/C17"),
+ "C19": ("exploration", "concurrent registry of live guards keyed by arena identity (exclusivity), created <= peak-live upper bound, global list of patterned blocks re-read after migration and at the end, thread-safe MonAlloc ledger for reset/reset_to_start/drop, Miri data-race detection with per-shard scheduler seeds (TSan in thorough)",
+         "Schedules are sampled, not enumerated: 2-16 threads, all six acquisition methods, seeded yields/spins/sleeps at the harness boundary, guards held across pauses to force arena creation, random base-allocator refusals in a quarter of the runs; the evidence counts the distinct get/drop interleavings actually observed. The registry interval lies inside the true guard lifetime and the peak counter outside it, so both checks can miss but cannot accuse correct code.",
+         "DESIGN.md 2/C19"),
  "C18": ("exploration", "position modulo N probes at region entry/after every op/at exit, exact restore after scoped_aligned, conversion outcome classification",
          "Random nestings of aligned/scoped_aligned/scoped over all 25 (outer, inner) pairs, both directions, unwinding; by-value and borrow conversions incl. the runtime requirement checks.",
          "DESIGN.md 2/C18"),
@@ -66,6 +69,7 @@ m = {
  },
  "engines": [
   {"name": "pure", "path": "harness/src/bin/pure.rs", "serves_properties": ["C11", "C12"], "kind_free_text": "the crate's dependency-free arithmetic files compiled from /repo via #[path] and run against a wide-integer reference specification"},
+  {"name": "pool", "path": "harness/src/bin/pool.rs", "serves_properties": ["C19"], "kind_free_text": "multi-threaded stress of the real BumpPool with online monitors and an event log; Miri (race detector) and TSan variants"},
   {"name": "lockstep", "path": "harness/src/bin/lockstep.rs", "serves_properties": ["C17"], "kind_free_text": "two real arenas driven in lock-step through pairs of entry points, compared after every request"},
   {"name": "coll", "path": "harness/src/bin/coll.rs", "serves_properties": ["C06", "C07", "C08", "C09", "C15", "C16"], "kind_free_text": "generated operation histories on the real collections in lock-step with std reference models, a per-identity drop ledger with injected callback panics, and MonAlloc fault injection"},
   {"name": "arena", "path": "harness/src/bin/arena.rs", "serves_properties": ["C01", "C02", "C03", "C05", "C07", "C10", "C12", "C13", "C14", "C15", "C18"], "kind_free_text": "generated operation histories over the real arena with online monitors (shadow ledger, stats walker, MonAlloc ledger), run natively (debug+release), under Miri, ASan and valgrind"}
@@ -83,7 +87,7 @@ for pid, (cat, tech, text, ref) in CHECKS.items():
         "thorough_cmd": f"python3 /verif/check.py {pid} --tier thorough",
         "evidence_file": f"/verif/evidence/{pid}.json",
         "replay_cmd_template": f"python3 /verif/check.py {pid} --replay {{path}}",
-        "engine": {"C11": "pure", "C12": "pure+arena", "C06": "coll", "C08": "coll", "C09": "coll", "C16": "coll", "C17": "lockstep", "C07": "coll+arena", "C15": "coll+arena"}.get(pid, "arena"),
+        "engine": {"C11": "pure", "C12": "pure+arena", "C06": "coll", "C08": "coll", "C09": "coll", "C16": "coll", "C17": "lockstep", "C19": "pool", "C07": "coll+arena", "C15": "coll+arena"}.get(pid, "arena"),
         "level_claimed": {"category": cat, "text": text, "design_ref": ref},
         "level_note": "held on the executions observed (counts in the evidence file); trusts the harness' own oracles, MonAlloc, the nightly toolchain, Miri/ASan/valgrind; paths no workload reached are not covered",
         "technique": tech,
